@@ -1,6 +1,6 @@
 """C09 — tick cadence: one rate evaluation immediately, then at most one per interval."""
 ID = "C09"
-PROPS = ["F1Verif.Props.C09", "F1Verif.Props.FactsC09"]
+PROPS = ["F1Verif.Props.C09", "F1Verif.Props.FactsC09", "F1Verif.Props.RefineC09W"]
 RULE = ("engine C: whole runs (constant, staged, ramp, gaussian; distributions none/regular/random; intervals 20-200 ms; "
         "with one slow evaluation that delays the ticking goroutine) with a wrapping rate function that logs monotonic "
         "timestamps and values; Spec: evaluation j happens no earlier than j intervals after the first (stall-robust: "
